@@ -209,14 +209,24 @@ def check(idx: Index, rep: Report, tier: str) -> str:
             inv_ = {v: k for k, v in by_name_.items()}
             r.fail(f.fq + ":saved-set", Finding("C21.R3", f.fq, f"callee-saved-indices:{nm_}", f"`{nm_} = {unparse(v_)}` evaluates to {sorted(vals_)}; the callee-saved registers of the System V ABI have the indices {sorted(want_)}: {sorted(inv_.get(i_, str(i_)) for i_ in want_ - vals_)} missing, {sorted(inv_.get(i_, str(i_)) for i_ in vals_ - want_)} extra - a function that writes a missing one does not save it", PE))
     # which operations are scanned for written callee-saved registers: only pure register getters may be left out
-    comps = [n for n in walk_local(f.node) if isinstance(n, (ast.GeneratorExp, ast.SetComp, ast.ListComp)) and any(call_attr(g.iter) == "walk" for g in n.generators if isinstance(g.iter, ast.Call))]
-    if len(comps) != 1:
-        raise AnalysisError(f"{f.fq}: scan of the function's operations for written registers not found")
-    gen = next(g for g in comps[0].generators if isinstance(g.iter, ast.Call) and call_attr(g.iter) == "walk")
-    opv = unparse(gen.target)
+    from ..setbuild import describe as _describe3
+
+    dsc3 = _describe3(f.node, cfg3, push_loops[0].iter, cfg3.node_of(push_loops[0]))
+    scans = [a_ for a_ in dsc3.adds if a_.iters and re.fullmatch(r"\w+\.walk\(\)", a_.iters[0][1])]
+    if dsc3.unknown or len(scans) != 1:
+        raise AnalysisError(f"{f.fq}: scan of the function's operations for written registers not found ({dsc3.unknown[:1]})")
+    opv = scans[0].iters[0][0]
     GETTERS = {"GetRegisterOp", "GetAVXRegisterOp", "GetMaskRegisterOp"}
-    for cond in gen.ifs:
-        ct = unparse(cond)
+    op_facts = [(t_, p_) for t_, p_ in scans[0].facts if re.search(rf"\b{re.escape(opv)}\b", t_) and not re.search(rf"\b{re.escape(opv)}\.results\b", t_)]
+    if not op_facts:
+        r.ok(f.fq + ":scan", f"{f.loc} every operation is scanned")
+
+    class _C:  # condition in the spelling the classification below expects
+        def __init__(self, t_, p_):
+            self.t = t_ if p_ else f"not {t_}"
+
+    conds_ = [_C(t_, p_).t for t_, p_ in op_facts]
+    for ct in conds_:
         m_ = re.fullmatch(rf"not isinstance\({opv}, \(?((?:[\w.]+(?:, | \| )?)+)\)?\)", ct)
         if m_ and {x.split(".")[-1] for x in re.split(r", | \| ", m_.group(1))} <= GETTERS:
             r.ok(f.fq + ":scan", f"{f.loc} every operation except the register getters is scanned")
@@ -242,8 +252,7 @@ def check(idx: Index, rep: Report, tier: str) -> str:
             else:
                 r.ok(f.fq + ":scan", f"{f.loc} no operand-less x86 operation writes a register")
             continue
-        if opv in {x.id for x in ast.walk(cond) if isinstance(x, ast.Name)}:
-            raise AnalysisError(f"{f.fq}: filter `{ct}` on the scanned operations not understood")
+        raise AnalysisError(f"{f.fq}: filter `{ct}` on the scanned operations not understood")
 
     # ---- R7: x86 canonicalization of additions with zero forwards the OTHER operand
     from ..paths import enum_paths as _ep7
